@@ -618,6 +618,9 @@ class Body:
                     and len(sv0.extra['variant']['fields']) == len(sv0.args) and len(sv0.args) >= 2 and not sv0.extra['variant']['fields'][0].isdigit():
                 # `*place = Struct { a, b, .. }` is a write of every field
                 for fname, comp in zip(sv0.extra['variant']['fields'], sv0.args):
+                    sc = strip(comp)
+                    if sc is not None and sc.kind == 'load' and strip(sc.args[0]) is strip(root) and tuple(sc.args[1]) == tuple(full) + (fname,):
+                        continue        # `..*place` (struct update syntax): the field keeps its value, nothing is written
                     stf = Store(root, tuple(full) + (fname,), comp, pt, span)
                     stf.owner = sv0.extra.get('path')
                     self.stores.append(stf)
